@@ -35,7 +35,7 @@ package metadata
 
 // every anchored operation yields exactly one unpublished entry, in anchoring order, fields one to one
 //@ func getUnpublishedOperations(ops) (ret)
-//@   requires forall i int :: 0 <= i && i < len(ops) ==> ops[i] != nil
+//@   requires forall i int :: 0 <= i && i < len(ops) ==> ops[i] != nil && allocated(ops[i])
 //@   modifies elems(ops)
 //@   ensures [length] len(ret) == len(ops)
 //@   ensures [fields] forall i int :: 0 <= i && i < len(ops) ==> ret[i] != nil && ret[i].Type == ops[i].Type &&
@@ -86,9 +86,10 @@ package metadata
 
 // document metadata: every item is present exactly under its condition and equal to the state's field
 //@ func (t *Metadata) CreateDocumentMetadata(rm, info) (ret, err)
+//@   modifies elems(rm.PublishedOperations), elems(rm.UnpublishedOperations)
 //@   requires t != nil
 //@   requires rm != nil ==> (forall i int :: 0 <= i && i < len(rm.PublishedOperations) ==> rm.PublishedOperations[i] != nil) &&
-//@        (forall i int :: 0 <= i && i < len(rm.UnpublishedOperations) ==> rm.UnpublishedOperations[i] != nil)
+//@        (forall i int :: 0 <= i && i < len(rm.UnpublishedOperations) ==> rm.UnpublishedOperations[i] != nil && allocated(rm.UnpublishedOperations[i]))
 //@   requires info != nil && has(info, "published") ==> typeis(info["published"], bool)
 // the two operation lists are separate slices (both are sorted in place)
 //@   requires rm != nil ==> !sameArray(rm.PublishedOperations, rm.UnpublishedOperations) || len(rm.PublishedOperations) == 0 || len(rm.UnpublishedOperations) == 0
@@ -113,3 +114,10 @@ package metadata
 //@   ensures [publishedOperations] ok ==> has(mm, "publishedOperations") == (t.includePublishedOperations && len(rm.PublishedOperations) > 0)
 //@   ensures [unpublishedOperations] ok ==> has(mm, "unpublishedOperations") == (t.includeUnpublishedOperations && len(rm.UnpublishedOperations) > 0)
 //@   ensures [only] ok ==> (forall k string :: has(ret, k) ==> k == "method" || k == "deactivated" || k == "canonicalId" || k == "equivalentId" || k == "created" || k == "versionId" || k == "updated")
+
+// the constructor applies caller-supplied option closures (function values stored in a slice are not
+// followed by the verifier); the options of this package only set the two boolean fields
+//@ func New(opts) (md)
+//@   trusted "constructor applying option closures; sets only the include* flags"
+//@   modifies nothing
+//@   ensures md != nil && fresh(md)
